@@ -699,6 +699,8 @@ func (r *runningStep) transitionToDisabled() {
 
 	err := fmt.Errorf("step foreach %s disabled", r.runID)
 	r.markStageFailures(StageIDExecute, err)
+	// A disabled step does not execute, so it cannot fail either.
+	r.stageChangeHandler.OnStepStageFailure(r, string(StageIDFailed), &r.wg, err)
 	r.markNotClosable(err)
 }
 
